@@ -17,7 +17,7 @@ LOGIN = "https://login.microsoftonline.com"
 CORE_KINDS = [
     "http:400", "http:401", "http:403", "http:404", "http:429", "http:500", "http:503",
     "urlerror_str", "urlerror_os", "cut", "status:199", "status:300", "status:302", "status:500", "status:404",
-    "nostatus:500", "nostatus:302",
+    "nostatus:500", "nostatus:302", "http_bin:500", "http_bin:403", "status_bin:502",
 ]
 EXT_KINDS = [
     "exc_send:TimeoutError", "exc_send:ConnectionResetError", "exc_read:IncompleteRead", "exc_read:TimeoutError",
@@ -109,6 +109,9 @@ class GraphSim:
             self.fired.append((k, kind, rclass, url))
             if self.log:
                 self.log.ev("fault", k, kind)
+            if kind.startswith("http_bin:"):
+                code = int(kind[9:])
+                raise HTTPError(url, code, "injected", {}, io.BytesIO(b"\xff\xfe<html>\xe9rror \x80\x81</html>"))
             if kind.startswith("http:"):
                 code = int(kind[5:])
                 raise HTTPError(url, code, "injected", {}, io.BytesIO(b'{"error":{"code":"injected"}}'))
@@ -129,6 +132,8 @@ class GraphSim:
         if kind == "cut":
             cut = (k * 7919) % max(1, len(body))
             return Resp(self, body[:cut], status)
+        if kind.startswith("status_bin:"):
+            return Resp(self, b"\xff\xfe\x80 gateway says no \xe9", int(kind[11:]))
         if kind.startswith("status:"):
             return Resp(self, body, int(kind[7:]))
         if kind.startswith("nostatus:"):
